@@ -23,6 +23,8 @@ struct PeerPlan {
     slow_ms: u64,
     /// choke us now and then after a block, and unchoke again a moment later (honest peers may do that)
     chokes: bool,
+    /// choke us right after the first block and unchoke 150 ms later, while the other peers go on serving
+    choke_first: bool,
 }
 
 fn msg(id: u8, payload: &[u8]) -> Vec<u8> {
@@ -181,7 +183,15 @@ fn run_peer(
                     }
                     sent += 1;
                     served.fetch_add(1, Ordering::SeqCst);
-                    if plan.chokes && plan.drop_after.is_none() && r.chance(1, 3) {
+                    if plan.choke_first && sent == 1 {
+                        if !write_segmented(&mut s, &msg(0, &[]), &mut r) {
+                            return;
+                        }
+                        std::thread::sleep(std::time::Duration::from_millis(150));
+                        if !write_segmented(&mut s, &msg(1, &[]), &mut r) {
+                            return;
+                        }
+                    } else if plan.chokes && plan.drop_after.is_none() && r.chance(1, 3) {
                         // Choke, and a little later Unchoke ("eventually unchokes")
                         if !write_segmented(&mut s, &msg(0, &[]), &mut r) {
                             return;
@@ -215,9 +225,11 @@ fn tracker_reply(entries: &[(u16, [u8; 20])]) -> Vec<u8> {
 /// Child process body: `child-e2e02 <seed> <pl> <lens> <honest> <droppers> <stay>`; one `E2E …` line on stderr.
 pub fn child(seed: u64, pl: usize, lens: &str, honest: usize, droppers: usize, mode: u32) -> ! {
     // mode: 0 = one honest peer leaves once everything is stored, 1 = everybody stays,
-    //       2/3 = the same with every piece at exactly one peer and the first peer slow
+    //       2/3 = the same with every piece at exactly one peer and the first peer slow,
+    //       4 = every peer has everything; the first one chokes us after its first block for 150 ms (then as 0)
     let stay = mode == 1 || mode == 3;
-    let disjoint = mode >= 2;
+    let disjoint = mode == 2 || mode == 3;
+    let choke_race = mode == 4;
     let chokes = seed % 3 == 0;
     std::panic::set_hook(Box::new(|_| {
         PANICS.fetch_add(1, Ordering::SeqCst);
@@ -251,6 +263,12 @@ pub fn child(seed: u64, pl: usize, lens: &str, honest: usize, droppers: usize, m
             own[i % honest][i] = true;
             continue;
         }
+        if choke_race {
+            for h in 0..honest {
+                own[h][i] = true;
+            }
+            continue;
+        }
         own[r.below(honest as u64) as usize][i] = true;
         for h in 0..honest {
             if r.chance(1, 3) {
@@ -260,11 +278,11 @@ pub fn child(seed: u64, pl: usize, lens: &str, honest: usize, droppers: usize, m
     }
     for h in 0..honest {
         let slow_ms = if disjoint && h == 0 { 150 } else { 0 };
-        plans.push(PeerPlan { pieces: own[h].clone(), drop_after: None, drop_mid: false, seed: r.next(), slow_ms, chokes });
+        plans.push(PeerPlan { pieces: own[h].clone(), drop_after: None, drop_mid: false, seed: r.next(), slow_ms, chokes, choke_first: choke_race && h == 0 });
     }
     for _ in 0..droppers {
         let pieces: Vec<bool> = (0..npieces).map(|_| r.coin()).collect();
-        plans.push(PeerPlan { pieces, drop_after: Some(r.below(3) as usize), drop_mid: r.coin(), seed: r.next(), slow_ms: 0, chokes: false });
+        plans.push(PeerPlan { pieces, drop_after: Some(r.below(3) as usize), drop_mid: r.coin(), seed: r.next(), slow_ms: 0, chokes: false, choke_first: false });
     }
     r.shuffle(&mut plans);
     let stop = Arc::new(AtomicBool::new(false));
@@ -404,7 +422,8 @@ pub fn gen(r: &mut Rng, n: usize) -> Vec<String> {
         // scenario families that matter for the bookkeeping, then free mixtures
         let family = k % 5;
         let pl = match family {
-            1 | 2 => *r.pick(&[16usize, 100, 16384, 20000]),
+            1 => *r.pick(&[16usize, 100, 16384, 20000]),
+            2 => *r.pick(&[20000usize, 40000]), // several blocks per piece
             _ => *r.pick(&[5usize, 16, 100, 16384, 20000, 40000]),
         };
         let nf = 1 + r.below(4) as usize;
@@ -430,21 +449,22 @@ pub fn gen(r: &mut Rng, n: usize) -> Vec<String> {
             lens[0] = lens[0].max(10 * pl + 1);
         }
         if lens.iter().sum::<usize>() == 0 {
-            lens[0] = if family == 2 { pl } else { pl + 1 };
+            lens[0] = pl + 1;
         }
         let lens_s = lens.iter().map(|x| x.to_string()).collect::<Vec<_>>().join(",");
         let (honest, droppers) = match family {
             1 => (3, 1 + r.below(2)),
-            2 => (3, r.below(2)),
+            2 => (2 + r.below(2), 0),
             3 => (1 + r.below(2), r.below(2)),
             _ => (1 + r.below(3), r.below(3)),
         };
         let stay = r.chance(1, 3);
-        let mode = match (family == 4, stay) {
-            (false, false) => 0,
-            (false, true) => 1,
-            (true, false) => 2,
-            (true, true) => 3,
+        let mode = match (family, stay) {
+            (2, _) => 4,
+            (4, false) => 2,
+            (4, true) => 3,
+            (_, false) => 0,
+            (_, true) => 1,
         };
         let honest = if family == 4 { honest.max(2) } else { honest };
         out.push(format!("e2e {} {} {} {} {} {}", r.below(1 << 30), pl, lens_s, honest, droppers, mode));
